@@ -320,12 +320,20 @@ inductive Variant
   | maskFreqs             -- get_mask_freqs(X, …)
   | nextImf               -- get_next_imf(X, …) itself
   | second (inner : Variant)      -- sift_second_layer(IA, sift_func=inner, sift_args=kw)
+  | maskSecond                    -- mask_sift_second_layer(IA, mask_freqs, sift_args=kw)
   deriving DecidableEq
 
 def Variant.name : Variant → String
   | .sift => "sift" | .ensemble => "ensemble_sift" | .complete => "complete_ensemble_sift"
   | .mask => "mask_sift" | .nextImfMask => "get_next_imf_mask" | .maskFreqs => "get_mask_freqs"
-  | .nextImf => "get_next_imf" | .second _ => "sift_second_layer"
+  | .nextImf => "get_next_imf" | .second _ => "sift_second_layer" | .maskSecond => "mask_sift_second_layer"
+
+/-- `mask_sift_second_layer` forwards a copy of `sift_args` to `mask_sift` after
+    `if 'max_imfs' not in sift_args: sift_args['max_imfs'] = IA.shape[1]` and, per first-layer column,
+    `sift_args['mask_freqs'] = mask_freqs[ii:]` (an array slice: a `mask_freqs` entry of the caller is overwritten) -/
+def maskSecondArgs (kw : Assoc) : Assoc :=
+  let kw1 := if kw.contains "max_imfs".toList then kw else kw.insert "max_imfs".toList data
+  kw1.insert "mask_freqs".toList (.seq .array .nil)
 
 /-- `variant(X, **kw)` (for the two helpers the data positionals are supplied) -/
 def runVariant (legacy : Bool) : Variant → Assoc → Except Err (List StageCall)
@@ -337,6 +345,7 @@ def runVariant (legacy : Bool) : Variant → Assoc → Except Err (List StageCal
   | .maskFreqs, kw => if legacy then gmfMLegacy [] kw else gmfM [] kw
   | .nextImf, kw => gniM [] kw
   | .second inner, kw => runVariant legacy inner kw      -- `sift_func(IA[:, ii], **sift_args)`
+  | .maskSecond, kw => if legacy then maskMLegacy (maskSecondArgs kw) else maskM (maskSecondArgs kw)   -- `mask_sift(IA[:, ii], **sift_args)`
 
 /-- what the user supplies: some top-level keywords and, per stage, a partial dictionary or nothing -/
 structure User where
@@ -393,16 +402,25 @@ inductive Route
 /-- `functools.partial(func, **store)(X)` : the partial's keywords followed by the call's (none) -/
 def partialCall (kw : Assoc) : Assoc := kw.append .nil
 
+/-- the sift function whose configuration (`get_config(name)`) a variant's options are written into -/
 def baseVariant : Variant → Variant
   | .second inner => baseVariant inner
+  | .maskSecond => .mask
   | v => v
+
+/-- can a ready-made callable be handed over?  `sift_second_layer` takes `sift_func`; `mask_sift_second_layer` has no such
+    parameter (`mask_sift_second_layer(IA, freqs, sift_func=cfg.get_func())` is a TypeError) -/
+def takesFunc : Variant → Bool
+  | .maskSecond => false
+  | .second inner => takesFunc inner
+  | _ => true
 
 /-- the stage calls made by one top-level call of `v` with the user's options delivered by route `r` -/
 def emit (legacy : Bool) (r : Route) (v : Variant) (u : User) : Except Err (List StageCall) := do
   let kw ← match r with
     | .direct => pure (kwargsDirect u)
     | .unpackCfg => kwargsConfig (baseVariant v) u
-    | .getFunc => (kwargsConfig (baseVariant v) u).map partialCall
+    | .getFunc => if takesFunc v then (kwargsConfig (baseVariant v) u).map partialCall else .error .typeError
   runVariant legacy v kw
 
 /-! ### the options a stage actually works with -/
@@ -472,7 +490,8 @@ def handle (o : Op) : Option String :=
         | "unpack" => pure Route.unpackCfg
         | "get_func" => pure Route.getFunc
         | _ => return "bad-op"
-      let v := if second != 0 then Variant.second v0 else v0
+      if second = 2 ∧ vn ≠ "mask_sift" then return "bad-op"
+      let v := if second = 2 then Variant.maskSecond else if second != 0 then Variant.second v0 else v0
       match emit (legacy != 0) r v { top, imf, env, ext } with
       | .error e => return s!"err {e.name}"
       | .ok cs =>
